@@ -466,6 +466,33 @@ def rule_key(chk, fb):
         read = fields_read(fb, d, adt)
         missing = sorted(fields - read - set(exc))
         chk.ob(rd, "%s::%s" % (adt.split("::")[-1], fn), not missing, where=fb.loc(d), detail="fields %s; read %s; missing %s" % (sorted(fields), sorted(read), missing))
+        # a key is built from the keys of its parts: a field whose (element) type has a content key of its own contributes
+        # through that key, not through a projection of it (its plain text, its length ...)
+        reach = {d}
+        frontier = [d]
+        for _ in range(3):
+            nxt = []
+            for f_ in frontier:
+                for c in [f_] + [x for x in fb.mir if x.startswith(f_ + "::{closure")]:
+                    for _, t in fb.calls_in(fb.mir[c]):
+                        g = t.get("fn", "")
+                        cands = [g] + [a.get("cfn", "") for a in t.get("args", [])]
+                        for g in cands:
+                            if g in fb.mir and g not in reach:
+                                reach.add(g)
+                                if fb.mir[g].get("self_ty") == adt:
+                                    nxt.append(g)
+            frontier = nxt
+        for f in fb.adts[adt]["variants"][0]["fields"]:
+            for other, ofn, _ in targets:
+                if other != adt and other in f["ty"]:
+                    part_key = "%s::%s" % (other, ofn)
+                    # ... or through a method of the part that reads all of the part's fields (a one-field wrapper's getter)
+                    ofields = set(fb.struct_fields(other))
+                    whole = [g for g in reach if fb.mir.get(g, {}).get("self_ty") == other and ofields <= fields_read(fb, g, other)]
+                    ok = part_key in reach or bool(whole)
+                    chk.ob(rd, "%s::%s:via(%s)" % (adt.split("::")[-1], fn, other.split("::")[-1]), ok, where=fb.loc(d),
+                           detail="field `%s` (%s) contributes through %s::%s: %s" % (f["name"], other.split("::")[-1], other.split("::")[-1], ofn, ok))
 
 
 def rule_number_text(chk, fb):
@@ -480,6 +507,60 @@ def rule_number_text(chk, fb):
         casts = [s for bl in b["blocks"] for s in bl["s"] if s["k"] == "assign" and s["rv"]["k"] == "cast" and s["rv"].get("ck") == "FloatToInt"]
         chk.touch(d)
         chk.ob(re_, "%s" % d, not casts, where=fb.loc(d) if not casts else "%s:%s" % (b["file"], casts[0]["ln"]), detail="float-to-int casts on the number-to-text path: %d%s" % (len(casts), " (whole numbers beyond the integer range saturate)" if casts else ""))
+
+
+def rule_rich_text_set(chk, fb, rid="C01.f.set"):
+    """set_text(v) followed by get_text() is v: the plain-text setter of a rich text replaces all runs - it empties the
+    run list (or assigns a fresh one) on every path before it adds the new run."""
+    from cfg import CFG
+
+    RICH = "structs::rich_text::RichText"
+    r = chk.rule(
+        rid,
+        "set then get for rich text: the method that sets a rich text from a plain string empties the run list (clear / a fresh list assigned) on every path - otherwise the old trailing runs stay part of the value",
+        floor=1,
+    )
+    for d, b in sorted(fb.mir.items()):
+        if b.get("self_ty") != RICH or b["kind"] != "AssocFn" or d.split("::")[-1] != "set_text":
+            continue
+        fl = Flow(fb, b)
+        cfg = CFG(b)
+        resets = []
+        for bi, t in fl.calls():
+            if t.get("fn", "").split("::")[-1] in ("clear",) and t["args"] and any(a[0] == "field" and a[1] == RICH and a[2] == "rich_text_elements" for a in fl.atoms(t["args"][0], through_calls=False)):
+                resets.append(bi)
+        for bi, bl in enumerate(b["blocks"]):
+            for st in bl["s"]:
+                if st["k"] == "assign" and [e.get("f") for e in st["lhs"].get("pr", []) if isinstance(e, dict)] == ["rich_text_elements"]:
+                    resets.append(bi)
+        ok = any(x == 0 or cfg.postdominates(x, 0) for x in resets)
+        chk.touch(d)
+        chk.ob(r, "RichText::set_text", ok, where=fb.loc(d), detail="run list emptied / replaced on every path: %s (%d reset site(s))" % (ok, len(resets)))
+
+
+def rule_guess_whole(chk, fb, rid="C01.e.guess"):
+    """`set_value("  12 ")` is text: the type guesser's number test looks at the text as given.  A trimmed, cut or
+    rewritten copy makes padded or decorated text a number and the blanks are gone from the stored value."""
+    from props.C14 import LOSSY, LOSSY_ON_STR
+
+    r = chk.rule(
+        rid,
+        "the number test sees the text as given: in the type guesser, the receiver of str::parse derives from the parameter through no trimming, cutting or rewriting call",
+        floor=1,
+    )
+    for d, b in sorted(fb.mir.items()):
+        if b.get("self_ty") != CELLVALUE or d.split("::")[-1] != "guess_typed_data":
+            continue
+        fl = Flow(fb, b)
+        n = 0
+        for bi, t in fl.calls(lambda t: t.get("fn", "").endswith("str>::parse") or t.get("fn", "").split("::")[-1] == "parse"):
+            at = fl.atoms(t["args"][0], stop_calls=lambda f: f in fb.mir) if t["args"] else set()
+            if not any(a[0] == "arg" for a in at):
+                continue
+            cuts = sorted({a[1].split("::")[-1] for a in at if a[0] == "call" and a[1].split("::")[-1] in LOSSY + LOSSY_ON_STR and a[1].split("::")[-1] not in ("get", "index")})
+            chk.touch(d)
+            chk.ob(r, "guess_typed_data:parse#%d" % n, not cuts, where="%s:%s" % (b["file"], t.get("ln")), detail="calls between the parameter and parse that shorten or rewrite the text: %s" % (cuts or "none"))
+            n += 1
 
 
 def rule_number_exact(chk, fb, rid="C01.e.exact"):
@@ -580,10 +661,12 @@ def rule_rich_text_value(chk, fb):
 def run(chk, fb, tier):
     rule_number_text(chk, fb)
     rule_number_exact(chk, fb)
+    rule_guess_whole(chk, fb)
     rule_kind_table(chk, fb)
     rule_escape(chk, fb)
     rule_key(chk, fb)
     rule_rich_text_value(chk, fb)
+    rule_rich_text_set(chk, fb)
     from props import C06
 
     C06.rule_variants(chk, fb, "C01.a.variants")
